@@ -28,6 +28,7 @@ type Ctx struct {
 	declOrder []string          // declaration text in order
 	declared  map[string]bool   // name -> declared
 	asserts   []string          // assumptions (function encoding, callee ensures, axioms)
+	tags      map[int]string    // index into asserts -> tag (see assertTagged)
 	typeIDs   map[string]int    // type string -> small id
 	typeByID  []types.Type      // id -> type
 	structDT  map[string]string // struct type string -> datatype sort name
@@ -97,6 +98,37 @@ func (c *Ctx) assert(s string) {
 		return
 	}
 	c.asserts = append(c.asserts, s)
+}
+
+// assertTagged records an assumption that individual obligations may leave out (loop invariants a
+// clause says it does not need). Leaving an assumption out is always sound.
+func (c *Ctx) assertTagged(s, tag string) {
+	if s == "true" {
+		return
+	}
+	if c.tags == nil {
+		c.tags = map[int]string{}
+	}
+	c.tags[len(c.asserts)] = tag
+	c.asserts = append(c.asserts, s)
+}
+
+// assertsFor: the first n assumptions without those whose tag is in skip.
+func (c *Ctx) assertsFor(n int, skip map[string]bool) []string {
+	if n <= 0 || n > len(c.asserts) {
+		n = len(c.asserts)
+	}
+	if len(skip) == 0 || len(c.tags) == 0 {
+		return c.asserts[:n]
+	}
+	out := make([]string, 0, n)
+	for i, a := range c.asserts[:n] {
+		if t, ok := c.tags[i]; ok && skip[t] {
+			continue
+		}
+		out = append(out, a)
+	}
+	return out
 }
 
 // declConst declares a constant once.
@@ -511,12 +543,13 @@ func (c *Ctx) query(goalNeg string, extra []string, wantModel bool, relax bool) 
 }
 
 // queryN uses only the first n assumptions (those established before the obligation's program point).
-func (c *Ctx) queryN(goalNeg string, extra []string, wantModel bool, relax bool, n int) string {
+func (c *Ctx) queryN(goalNeg string, extra []string, wantModel bool, relax bool, n int, skip ...map[string]bool) string {
 	var body strings.Builder
-	if n <= 0 || n > len(c.asserts) {
-		n = len(c.asserts)
+	var sk map[string]bool
+	if len(skip) > 0 {
+		sk = skip[0]
 	}
-	for _, a := range c.asserts[:n] {
+	for _, a := range c.assertsFor(n, sk) {
 		if relax && hasQuant(a) {
 			continue
 		}
